@@ -10,6 +10,7 @@ C10.box     Annex G boxing idioms classify the component they box; the divisor s
 C10.kinds   every closure-kind combination of = += -= *= /= and the binary operators compiles (witnesses)
 """
 import itertools
+import re
 from .. import clangjson as cj
 from .. import ir
 from ..report import Report
@@ -336,6 +337,34 @@ def rule_eq(rep, d):
             continue
         where = d.where(fn)
         if name in ("operator==", "operator!=") and len(ps) == 2:
+            # a comparison of the object representation is not the comparison of the parts: +0 == -0 and NaN != NaN are decided by ==, not by the bytes.
+            # The library helpers the operator calls (tag-dispatched fast paths) are searched as well.
+            seen_f, todo, hit = {fn.get("id")}, [fn], None
+            depth_ = 0
+            while todo and depth_ < 4 and hit is None:
+                nxt = []
+                for g in todo:
+                    for c_ in ir.walk_expr(ir.body(g) or {}):
+                        if c_.get("kind") not in ("CallExpr",) or not ir.ekids(c_):
+                            continue
+                        cal = ir.strip(ir.ekids(c_)[0])
+                        cn = cal.get("name") or (cal.get("referencedDecl") or {}).get("name") or ""
+                        if cn in ("memcmp", "bcmp", "__builtin_memcmp"):
+                            hit = (c_, g)
+                            break
+                        for h in ir.functions(d, cn) if cn else []:
+                            if h.get("id") not in seen_f and h.get("kind") == "FunctionDecl":
+                                seen_f.add(h.get("id"))
+                                nxt.append(h)
+                    if hit:
+                        break
+                todo = nxt
+                depth_ += 1
+            if hit:
+                rep.violates("C10.eq", name, "both parts", where=d.where(hit[0]),
+                             detail="`%s`%s compares the object representation: (+0, x) and (-0, x) become unequal and a NaN part equal to itself, unlike the part-wise == of "
+                                    "std::complex and of the reference closures" % (re.sub(r"\s+", " ", d.text(hit[0]))[:60], "" if hit[1] is fn else " (in %s, reached from the operator)" % hit[1].get("name")))
+                continue
             # truth table over (real parts equal, imaginary parts equal), along every path
             l, r = ps[0]["name"], ps[1]["name"]
             loc = fs.local_sx(fn)
